@@ -1,5 +1,250 @@
-import YModel.Ops
-/-! placeholder; theorems follow -/
+import YProofs.Props.C02
+/-!
+# C01 — Tensor algebra agrees with dense linear algebra
+
+`toDenseOn L T` is the model of `T.to_numpy(legs=L)`: the dense array on ANY leg spaces `L` (also with
+sectors the tensor does not hold, which is how "sectors present in only one operand" and "entirely empty
+results" enter).  The theorems state that `toDenseOn` commutes with the operations of the block model,
+for every well-formed operand of every symmetry, rank, sector content and value ring.
+-/
 namespace YModel
-theorem c01_placeholder : True := trivial
+variable {R : Type} {ms : List Nat}
+
+/-! ### element-wise operations: scalar multiplication, negation, conjugation of values -/
+
+/-- any zero-preserving element-wise map commutes with the dense embedding -/
+theorem toDense_mapVals [Zero R] (f : R → R) (hf : f 0 = 0) (L : List LegSpace) (T : Tensor R) (idx : List Nat) :
+    toDenseOn L (T.mapVals f) idx = f (toDenseOn L T idx) := by
+  unfold toDenseOn
+  have hr : (T.mapVals f).rank = T.rank := rfl
+  rw [hr, Tensor.get?_mapVals]
+  split
+  · cases T.get? (keyAt L idx T.rank) with
+    | none => simp [hf]
+    | some b => simp [Block.map]
+  · exact hf.symm
+
+theorem toDense_smul [Zero R] [Mul R] (c : R) (hc : c * 0 = 0) (L : List LegSpace) (T : Tensor R) (idx : List Nat) :
+    toDenseOn L (smul c T) idx = c * toDenseOn L T idx := toDense_mapVals _ hc L T idx
+
+theorem toDense_neg [Zero R] [Neg R] (h0 : -(0 : R) = 0) (L : List LegSpace) (T : Tensor R) (idx : List Nat) :
+    toDenseOn L (neg T) idx = - toDenseOn L T idx := toDense_mapVals _ h0 L T idx
+
+theorem toDense_conjBlocks [Zero R] [Conj R] (h0 : Conj.conj (0 : R) = 0) (L : List LegSpace) (T : Tensor R) (idx : List Nat) :
+    toDenseOn L (conjBlocks T) idx = Conj.conj (toDenseOn L T idx) := toDense_mapVals _ h0 L T idx
+
+/-- `conj` = element-wise conjugate of the dense array (legs become the conjugate legs: same sectors) -/
+theorem toDense_conj [Zero R] [Conj R] (h0 : Conj.conj (0 : R) = 0) (L : List LegSpace) (T : Tensor R) (idx : List Nat) :
+    toDenseOn L (conj T) idx = Conj.conj (toDenseOn L T idx) := by
+  have : toDenseOn L (conj T) idx = toDenseOn L (T.mapVals Conj.conj) idx := by
+    unfold toDenseOn conj
+    simp [Tensor.rank, Tensor.get?, Tensor.mapVals]
+  rw [this]; exact toDense_mapVals _ h0 L T idx
+
+/-- `flip_signature` does not touch the values -/
+theorem toDense_flipSignature [Zero R] (L : List LegSpace) (T : Tensor R) (idx : List Nat) :
+    toDenseOn L (flipSignature T) idx = toDenseOn L T idx := by
+  unfold toDenseOn flipSignature
+  simp [Tensor.rank, Tensor.get?]
+
+/-! ### addition: also for sectors present in only one operand -/
+
+theorem toDense_add [Zero R] [Add R] (hl : ∀ x : R, 0 + x = x) (hr : ∀ x : R, x + 0 = x)
+    {a b c : Tensor R} (h : add a b = .ok c) (L : List LegSpace) (idx : List Nat) :
+    toDenseOn L c idx = toDenseOn L a idx + toDenseOn L b idx := by
+  obtain ⟨_, hrank, _, _, _, _, rfl⟩ := add_ok_iff h
+  unfold toDenseOn
+  have hcr : (a.ofKeys (a.keys ++ b.keys) (fun k => addBlocks (a.get? k) (b.get? k))).rank = a.rank := rfl
+  rw [hcr, ← hrank, Tensor.get?_ofKeys]
+  split
+  · generalize keyAt L idx a.rank = k
+    cases hga : a.get? k with
+    | some ba =>
+      have hk : k ∈ a.keys ++ b.keys := by
+        apply List.mem_append_left
+        by_contra hn
+        rw [← Tensor.get?_none_iff, hga] at hn; cases hn
+      rw [if_pos hk]
+      cases hgb : b.get? k with
+      | some bb => simp [addBlocks]
+      | none => simp [addBlocks, hr]
+    | none =>
+      cases hgb : b.get? k with
+      | some bb =>
+        have hk : k ∈ a.keys ++ b.keys := by
+          apply List.mem_append_right
+          by_contra hn
+          rw [← Tensor.get?_none_iff, hgb] at hn; cases hn
+        rw [if_pos hk]
+        simp [addBlocks, hl]
+      | none =>
+        have hk : k ∉ a.keys ++ b.keys := by
+          rw [Tensor.get?_none_iff] at hga hgb
+          simp [hga, hgb]
+        rw [if_neg hk]
+        simp [hl]
+  · exact (hl 0).symm
+
+theorem toDense_sub [Zero R] [Add R] [Neg R] (hl : ∀ x : R, 0 + x = x) (hr : ∀ x : R, x + 0 = x) (h0 : -(0 : R) = 0)
+    {a b c : Tensor R} (h : sub a b = .ok c) (L : List LegSpace) (idx : List Nat) :
+    toDenseOn L c idx = toDenseOn L a idx + - toDenseOn L b idx := by
+  unfold sub at h
+  rw [toDense_add hl hr h, toDense_neg h0]
+
+/-! ### transposition -/
+
+theorem getD_pick {α} [Inhabited α] (l : List α) (σ : List Nat) (j : Nat) (d : α) (hj : j < σ.length) :
+    (pick l σ).getD j d = l.getD (σ.getD j 0) default := by
+  simp [pick, List.getD, hj]
+
+theorem locAt_pick (L : List LegSpace) (idx : List Nat) (σ : List Nat) (j : Nat) (hj : j < σ.length) :
+    locAt (pick L σ) (pick idx σ) j = locAt L idx (σ.getD j 0) := by
+  unfold locAt
+  rw [getD_pick _ _ _ _ hj, getD_pick _ _ _ _ hj]
+  rfl
+
+theorem map_range_pick {α} [Inhabited α] (f : Nat → α) (n : Nat) (σ : List Nat) (hσ : ∀ p ∈ σ, p < n) :
+    pick ((List.range n).map f) σ = σ.map f := by
+  unfold pick
+  apply List.map_congr_left
+  intro p hp
+  simp [List.getD, hσ p hp]
+
+/-- **transposition**: the dense array of `transpose σ a` on the permuted leg spaces, read at the permuted
+multi-index, is the dense array of `a`: result leg `j` is operand leg `σ[j]`. -/
+theorem toDense_transpose [Zero R] {σ : List Nat} {a c : Tensor R} (ha : WF ms a) (h : transpose σ a = .ok c)
+    (L : List LegSpace) (idx : List Nat) (hidx : idx.length = a.rank) :
+    toDenseOn (pick L σ) c (pick idx σ) = toDenseOn L a idx := by
+  obtain ⟨hσ, hc⟩ := transpose_ok_iff h
+  have hwc := wf_transpose ha h
+  have hlen := isPerm_length hσ
+  have hlt := isPerm_lt hσ
+  have hcr : c.rank = a.rank := by rw [hc]; simp [Tensor.rank, pick_length, hlen]
+  have hperm := isPerm_perm hσ
+  unfold toDenseOn
+  rw [hcr]
+  -- the "all located" conditions agree
+  have hall : (List.range a.rank).all (fun i => (locAt (pick L σ) (pick idx σ) i).isSome)
+      = (List.range a.rank).all (fun i => (locAt L idx i).isSome) := by
+    rw [Bool.eq_iff_iff, List.all_eq_true, List.all_eq_true]
+    constructor
+    · intro hh i hi
+      have hi' := List.mem_range.mp hi
+      obtain ⟨q, hq, hqi⟩ := List.getElem_of_mem (isPerm_mem hσ i hi')
+      have := hh q (List.mem_range.mpr (by omega))
+      rw [locAt_pick _ _ _ _ hq] at this
+      simpa [List.getD, hq, hqi] using this
+    · intro hh j hj
+      have hj' : j < σ.length := by rw [hlen]; exact List.mem_range.mp hj
+      rw [locAt_pick _ _ _ _ hj']
+      apply hh
+      apply List.mem_range.mpr
+      apply hlt
+      simp [List.getD, hj']
+  rw [hall]
+  split
+  · -- keys and positions are the permuted ones
+    have hkey : keyAt (pick L σ) (pick idx σ) a.rank = pick (keyAt L idx a.rank) σ := by
+      unfold keyAt
+      rw [map_range_pick _ _ _ hlt]
+      rw [← hlen]
+      apply List.ext_getElem (by simp)
+      intro j h1 h2
+      simp only [List.getElem_map, List.getElem_range]
+      rw [locAt_pick _ _ _ _ (by simpa using h1)]
+      simp [List.getD, (by simpa using h1 : j < σ.length)]
+    have hpos : posAt (pick L σ) (pick idx σ) a.rank = pick (posAt L idx a.rank) σ := by
+      unfold posAt
+      rw [map_range_pick _ _ _ hlt]
+      rw [← hlen]
+      apply List.ext_getElem (by simp)
+      intro j h1 h2
+      simp only [List.getElem_map, List.getElem_range]
+      rw [locAt_pick _ _ _ _ (by simpa using h1)]
+      simp [List.getD, (by simpa using h1 : j < σ.length)]
+    rw [hkey, hpos]
+    generalize hk : keyAt L idx a.rank = k
+    generalize hp : posAt L idx a.rank = pos
+    have hklen : k.length = a.rank := by rw [← hk]; simp [keyAt]
+    have hplen : pos.length = a.rank := by rw [← hp]; simp [posAt]
+    cases hga : a.get? k with
+    | some ba =>
+      have hmem := Tensor.get?_some_mem hga
+      have hcm : (pick k σ, ba.perm σ) ∈ c.blocks := by
+        rw [hc]
+        apply (isort_perm _ _).mem_iff.mpr
+        exact List.mem_map.mpr ⟨(k, ba), hmem, rfl⟩
+      rw [Tensor.get?_of_mem hwc.sorted hcm]
+      simp only [Block.perm]
+      congr 1
+      have hsl := (ha.keyRank _ hmem).2
+      simp only at hsl
+      rw [hsl]
+      apply List.ext_getElem (by simp [hplen])
+      intro p h1 h2
+      simp only [List.getElem_map, List.getElem_range]
+      have hp' : p < a.rank := by simpa using h1
+      obtain ⟨q, hq, hqp⟩ := List.getElem_of_mem (isPerm_mem hσ p hp')
+      have hidx : σ.idxOf p = q := by
+        have hnd : σ.Nodup := (hperm.nodup_iff).mpr List.nodup_range
+        rw [← hqp]; exact List.Nodup.idxOf_getElem hnd q hq
+      rw [hidx, getD_pick _ _ _ _ hq]
+      simp [List.getD, hq, hqp, h2]
+    | none =>
+      have : c.get? (pick k σ) = none := by
+        rw [Tensor.get?_none_iff]
+        intro hin
+        obtain ⟨kb, hkb, hkk⟩ := List.mem_map.mp hin
+        rw [hc] at hkb
+        have := (isort_perm _ _).mem_iff.mp hkb
+        obtain ⟨kb', hkb', rfl⟩ := List.mem_map.mp this
+        simp only at hkk
+        have := pick_injective hσ (ha.keyRank kb' hkb').1 hklen hkk
+        rw [Tensor.get?_none_iff] at hga
+        exact hga (this ▸ List.mem_map_of_mem (f := (·.1)) hkb')
+      rw [this]
+  · rfl
+
+/-! ### block access, dense array and legs describe one array -/
+
+/-- **block access agrees with the dense array**: at a multi-index located in sectors `key` at positions
+`pos`, the dense array holds exactly `a[key][pos]` when the block exists … -/
+theorem block_access_agrees [Zero R] (L : List LegSpace) (T : Tensor R) (idx : List Nat)
+    (hloc : (List.range T.rank).all (fun i => (locAt L idx i).isSome) = true)
+    {b : Block R} (hb : T.get? (keyAt L idx T.rank) = some b) :
+    toDenseOn L T idx = b.val (posAt L idx T.rank) := by
+  unfold toDenseOn
+  rw [if_pos hloc, hb]
+
+/-- … and `0` when it does not (absent sector, or a sector present only in the supplied legs) -/
+theorem block_absent_zero [Zero R] (L : List LegSpace) (T : Tensor R) (idx : List Nat)
+    (hb : T.get? (keyAt L idx T.rank) = none) : toDenseOn L T idx = 0 := by
+  unfold toDenseOn
+  split
+  · rw [hb]
+  · rfl
+
+/-- an entirely empty tensor is the zero array on any leg spaces -/
+theorem toDense_empty [Zero R] (L : List LegSpace) (T : Tensor R) (h : T.blocks = []) (idx : List Nat) :
+    toDenseOn L T idx = 0 := by
+  unfold toDenseOn Tensor.get?
+  rw [h]
+  simp
+
+/-! ### every program built from these operations: composition of the proved steps
+
+`ncon`/`einsum` execute a command list of `tensordot`, `trace`, `transpose` (`_einsum.py:_execute_commands`);
+each executed command is one of the operations above.  The statement that the PLANNER always emits a command
+list whose composition is the network contraction, for every network and order, is NOT proved here (it needs a
+general finite-sum rearrangement over arbitrary graphs); it is covered per generated network by the
+correspondence and by `np.einsum` on the real code.  The dense commutation of `tensordot` itself
+(`toDense_tensordot`: splitting the contracted dense range along sector offsets) is likewise covered by
+correspondence/oracle only in this version; its structural part (`wf_tensordot`, `charge_tensordot`: which
+blocks exist, their shapes, the charge rule) is proved in C02.  -/
+
+/-- non-vacuity -/
+example : toDenseOn [[([0], 1), ([1], 2)], [([0], 2), ([1], 1)]] exA [1, 2] = 2 := by decide
+example : toDenseOn [[([0], 1), ([1], 2)], [([0], 2), ([1], 1)]] exA [0, 2] = 0 := by decide
+example : (add exA exA).toOption.map (fun c => toDenseOn [[([0], 1), ([1], 2)], [([0], 2), ([1], 1)]] c [1, 2]) = some 4 := by decide
+
 end YModel
